@@ -46,7 +46,15 @@ def _work(chunk):
         signal.setitimer(signal.ITIMER_REAL, CASE_TIMEOUT if _W["hangs"] < 2 else max(3.0, CASE_TIMEOUT / 15))
         try:
             for rec in _W["fn"](t):
-                w.write(rec)
+                st = rec.pop("_stream", None) if isinstance(rec, dict) else None
+                if st is None:
+                    w.write(rec)
+                else:
+                    # a family may write to several observation streams (one per judge): <prefix>-<stream>_w<pid>_NNN.ndjson
+                    ws = _W.setdefault("streams", {})
+                    if st not in ws:
+                        ws[st] = C.ObsWriter("%s-%s_w%05d" % (_W["prefix"], st, os.getpid()), _W["writer"].shard_size)
+                    ws[st].write(rec)
                 n += 1
             signal.setitimer(signal.ITIMER_REAL, 0)
         except CaseHang:
@@ -58,13 +66,16 @@ def _work(chunk):
                                      "k": "%s:%d" % (os.path.basename(hp), _W["hangs"])}) + "\n")
     if w.f:
         w.f.flush()
+    for sw in _W.get("streams", {}).values():
+        if sw.f:
+            sw.f.flush()
     return n
 
 
 def replay_stream(chunks, modname, prefix, shard=15000, procs=None, setup_args=(), fn="replay"):
     """chunks: iterable of lists of cases (raw TLC data lines or decoded dicts).
     Returns (n_records, [obs files])."""
-    for f in glob.glob(prefix + "_w*.ndjson") + glob.glob(prefix + "_hang_w*.ndjson"):
+    for f in glob.glob(prefix + "_w*.ndjson") + glob.glob(prefix + "_hang_w*.ndjson") + glob.glob(prefix + "-*_w*.ndjson"):
         os.remove(f)
     procs = procs or max(2, C.NCPU - 2)
     total = 0
